@@ -2,7 +2,11 @@
 from .. import gen, probes
 from ..ref import secp, base58 as rb58, addr as raddr
 
+import json
+
 from ..core import refused
+
+H = 1 << 31
 
 PROP = "C09"
 LEVEL = "exploration"
@@ -16,7 +20,7 @@ RULE = ("scalars from boundary classes (1, 2, n-1, n-2, 2^k, 2^k-1, 1..31 leadin
         "negatives, byte strings of every length 0..40 except 32, checksummed WIFs carrying such scalars or wrong payload "
         "lengths; SEC rejection: x with no square root, x >= p, wrong y, every prefix byte 0..255, every length 0..70, hybrid "
         "with inconsistent parity; distinct = distinct (monitor, case) digests"
-        " EXTENSIONS: + from_point with hand-built off-curve / other-curve PointJacobi objects, secrets handed over in caller-owned buffers that are wiped afterwards, leading-zero X / Y corpora, every refusal repeated three times")
+        " EXTENSIONS: + from_point with hand-built off-curve / other-curve PointJacobi objects, secrets handed over in caller-owned buffers that are wiped afterwards, leading-zero X / Y corpora, every refusal repeated three times, extended private keys holding an out-of-range scalar: twelve first uses on fresh objects must each raise; use-time errors of accepted keys count")
 LEVEL_TEXT = ("Every PrivateKey construction / wif / from_wif and PublicKey.parse / sec execution is compared with own "
               "secp256k1 arithmetic and an independent Base58Check codec; rejection is judged by outcome (must raise). "
               "Encodings that ecdsa additionally accepts (raw 64-byte, hybrid 06/07) are sound iff the returned point is the "
@@ -60,6 +64,15 @@ def judge_pubkey(ctx, case):
         return ctx.judge("pubkey", False, case, "key", e, cls="%s|%s" % (case["ktag"], case["how"]), outcome="raised", mech="C09.pubkey.raised")
     except Exception as e:  # noqa
         return ctx.judge("pubkey", False, case, "key", e, cls="%s|%s" % (case["ktag"], case["how"]), outcome="raised", mech="C09.pubkey.raised")
+    try:
+        return _judge_pubkey_uses(ctx, case, pk, k, pt, bad)
+    except Exception as e:  # noqa  (a key object the constructor handed out must be usable: an error while using it counts)
+        return ctx.judge("pubkey", False, case, "usable key object", e, cls="%s|%s" % (case["ktag"], case["how"]), outcome="use-raised",
+                         mech="C09.pubkey.use_raised")
+
+
+def _judge_pubkey_uses(ctx, case, pk, k, pt, bad):
+    from btc_hd_wallet.keys import PublicKey
     if bytes(pk) != k.to_bytes(32, "big") or bytes(pk.k) != k.to_bytes(32, "big"):
         bad.append(("k_bytes", k.to_bytes(32, "big"), bytes(pk)))
     if case["how"].endswith("-wiped"):
@@ -160,6 +173,58 @@ def judge_reject_scalar(ctx, case):
     ok, obs, outcome = refused(attempt)          # (stable refusal: the same bad secret offered three times in a row)
     return ctx.judge("reject_scalar", ok, case, "raise", obs, cls="rejk|%s|%s" % (via, case["tag"]), outcome=outcome,
                      mech="C09.reject_scalar.accepted")
+
+
+NODE_USES = ("ckd-hardened", "ckd-normal", "derive_path-hardened", "extended_private_key", "extended_public_key", "wallet.by_path",
+             "wallet.generate", "wallet.bip84", "bip85.wif", "bip85.hex", "address", "wif")
+
+
+def judge_reject_node(ctx, case):
+    """An extended private key whose key field is 0 or >= n (the library parses lazily, which is its business): every FIRST USE of
+    it that would construct a key, a child, an address or an encoding must raise - asked on a fresh object each time, so that no
+    earlier touch has validated anything."""
+    from btc_hd_wallet.bip32 import PrvKeyNode
+    from btc_hd_wallet.paper_wallet import PaperWallet
+    from btc_hd_wallet.bip85 import BIP85DeterministicEntropy
+    k, tn, use = case["value"], case["testnet"], case["use"]
+    ver = 0x04358394 if tn else 0x0488ADE4
+    depth = case.get("depth", 0)
+    payload = ver.to_bytes(4, "big") + bytes([depth]) + (b"\x00" * 4 if depth == 0 else b"\x12\x34\x56\x78") + \
+        (0 if depth == 0 else 7).to_bytes(4, "big") + case["chain"] + b"\x00" + k.to_bytes(32, "big")
+    x = rb58.encode_check(payload)
+
+    def node():
+        if case.get("form") == "ctor":
+            return PrvKeyNode(key=k.to_bytes(32, "big"), chain_code=case["chain"], testnet=tn)
+        return PrvKeyNode.parse(x, testnet=tn)
+
+    def attempt():
+        if use == "ckd-hardened":
+            return node().ckd(index=H + case.get("index", 0)).extended_private_key()
+        if use == "ckd-normal":
+            return node().ckd(index=case.get("index", 0)).extended_private_key()
+        if use == "derive_path-hardened":
+            return node().derive_path(index_list=[H + 84, H, H]).private_key.wif(testnet=tn)
+        if use == "extended_private_key":
+            return node().extended_private_key()
+        if use == "extended_public_key":
+            return node().extended_public_key()
+        if use == "wif":
+            return node().private_key.wif(testnet=tn)
+        w = PaperWallet.from_extended_key(extended_key=x)
+        if use == "wallet.by_path":
+            return w.by_path("m/84'/0'/0'/0/0").extended_private_key()
+        if use == "wallet.generate":
+            return json.dumps(w.generate(account=0, interval=(0, 1)))[:200]
+        if use == "wallet.bip84":
+            return str(w.bip84(account=0, interval=(0, 1)))[:200]
+        if use == "address":
+            return w.p2wpkh_address(w.master)
+        b = BIP85DeterministicEntropy.from_xprv(xprv=x)
+        return b.wif(index=0) if use == "bip85.wif" else b.hex(num_bytes=32, index=0)
+    ok, obs, outcome = refused(attempt)
+    return ctx.judge("reject_scalar", ok, case, "raise", obs, cls="rejnode|%s|%s" % (use, case["tag"]), outcome=outcome,
+                     mech="C09.reject_scalar.node_use_accepted")
 
 
 def judge_reject_sec(ctx, case):
@@ -313,6 +378,14 @@ def run(ctx):
                 if ln == 33:
                     body = body[:-1] + b"\x02"
                 judge_reject_scalar(ctx, {"via": "wif", "payload": b"\xef" + body, "tag": "wif-len-nosuffix"})
+        # the same out-of-range scalars inside an extended private key, each first use on a fresh object
+        for tag, v in (("0", 0), ("n", N), ("n+1", N + 1), ("2^256-1", (1 << 256) - 1), ("n+2^128", N + (1 << 128))):
+            for use in NODE_USES:
+                for form in ("parse", "ctor"):
+                    n += 1
+                    if ctx.mine(n) and not (form == "ctor" and use.startswith(("wallet", "bip85", "address"))):
+                        judge_reject_node(ctx, {"value": v, "tag": tag, "use": use, "form": form, "testnet": bool(n & 1), "chain": gen.rbytes(rnd, 32),
+                                                "depth": (0, 3)[(n >> 1) & 1] if not use.startswith("bip85") else 0, "index": rnd.choice([0, 1, 44])})
         for _ in range(ctx.scale(120, 6000)):
             v = rnd.randrange(N, 1 << 256)
             judge_reject_scalar(ctx, {"via": rnd.choice(["int", "from_int"]), "value": v, "tag": "rand>=n"})
@@ -377,6 +450,8 @@ def replay(ctx, monitor, case):
     elif monitor in ("wif_roundtrip", "probe.PrivateKey.wif", "probe.PrivateKey.__init__"):
         case.setdefault("ktag", "replay")
         judge_wif(ctx, case)
+    elif monitor == "reject_scalar" and "use" in case:
+        judge_reject_node(ctx, case)
     elif monitor == "reject_scalar":
         judge_reject_scalar(ctx, case)
     elif monitor == "reject_point":
